@@ -506,6 +506,8 @@ def run(chk):
     _hashlast_rule(chk, prog)
     _eqlen_rule(chk, prog)
     _memeqlen_rule(chk, prog)
+    _lockstep_rule(chk, prog)
+    _gensymorder_rule(chk, prog)
 
 
 def _hashlast_rule(chk, prog):
@@ -657,3 +659,90 @@ def _memeqlen_rule(chk, prog):
                                   "a value equals any longer one that starts with it (for hashed strings: given equal 32-bit hashes), "
                                   "and the comparison is not symmetric" % (c.text()[:60], strip_casts(c.args[2]).text()))
     chk.floor(rule, 4, n)
+
+
+def _lockstep_rule(chk, prog):
+    """janet_equals / janet_compare walk two structs bucket by bucket in lockstep.  A step that decides what to skip by
+    looking at ONE of the two (say, buckets that are empty on the left) makes the answer depend on the argument order:
+    for two structs with colliding hashes but different layouts (cmp x y) and (cmp y x) are both -1."""
+    rule = "C03-LOCKSTEP"
+    chk.rule(rule, "the pairwise walk over two structs never advances on a test that reads only one of the two")
+    fn = prog.need_func("traversal_next", "value.c")
+    chk.analysed(fn)
+    heads = [x.name for x in fn.nodes if x.k == "vardecl" and "JanetStructHead" in (x.t or "")]
+    if len(heads) != 2:
+        raise AnalysisBroken("traversal_next: expected two struct-head locals, found %s" % heads)
+    a, b = heads
+    n = 0
+    for x in fn.nodes:
+        cond = None
+        if x.k in ("if", "while"):
+            cond = x.kids[0]
+        elif x.k == "for":
+            cond = x.kids[1]
+        if cond is None:
+            continue
+        reads_a = any(y.k == "mem" and y.field == "data" and strip_casts(y.kids[0]).k == "ref" and strip_casts(y.kids[0]).name == a for y in cond.walk())
+        reads_b = any(y.k == "mem" and y.field == "data" and strip_casts(y.kids[0]).k == "ref" and strip_casts(y.kids[0]).name == b for y in cond.walk())
+        if not (reads_a or reads_b):
+            continue
+        n += 1
+        chk.instance(rule)
+        if reads_a and reads_b:
+            chk.ok(rule, "traversal_next: `%s` looks at both structs" % cond.text()[:50])
+        else:
+            chk.violation(rule, "value.c", "traversal_next", "one-sided", cond.loc,
+                          "`%s` decides how the walk over two structs continues from the buckets of `%s` alone: what is compared "
+                          "then depends on which struct is the left operand, and the ordering is no longer antisymmetric" % (
+                              cond.text()[:60], a if reads_a else b))
+    chk.note("C03-LOCKSTEP: %d bucket tests in traversal_next" % n)
+    chk.floor(rule, 0, n)
+
+
+def _gensymorder_rule(chk, prog):
+    """gensym probes the symbol cache with the hash of the current counter text and then copies that text into the new
+    symbol.  If the counter moves between the two, the symbol's bytes and its stored hash / cache slot belong to
+    different names: re-interning the same spelling creates a second symbol that is not = to the first."""
+    rule = "C03-GENSYMORDER"
+    chk.rule(rule, "janet_symbol_gen does not advance the counter between hashing the name and copying it into the symbol")
+    fn = prog.need_func("janet_symbol_gen", "symcache.c")
+    chk.analysed(fn)
+    copies = [c for c in fn.calls("memcpy") if any(y.k == "mem" and y.field == "gensym_counter" for y in c.args[1].walk())]
+    if not copies:
+        raise AnalysisBroken("janet_symbol_gen: the copy of gensym_counter into the new symbol was not found")
+
+    def transfer(st, x):
+        if x.k == "call" and x.callee == "inc_gensym":
+            return st | {"moved"}
+        if x.k == "call" and x.callee in ("janet_string_calchash",) and any(y.k == "mem" and y.field == "gensym_counter" for y in x.walk()):
+            return st - {"moved"}
+        return st
+    def edge(st, blk, succ, cond, truth):
+        # `(inc_gensym(), 1)` is always true: its false edge does not exist
+        c = strip_casts(cond) if cond is not None else None
+        while c is not None and c.k == "paren":
+            c = strip_casts(c.kids[0])
+        if c is not None and c.k == "bin" and c.op == ",":
+            c = strip_casts(c.kids[-1])
+        if c is not None and c.k == "int" and ((c.v != 0) != bool(truth)):
+            return None
+        # `A && (step(), 1)` as a whole is false only when A was: a path that has just run the step cannot leave by the false edge
+        c = strip_casts(cond) if cond is not None else None
+        if c is not None and c.k == "bin" and c.op == "&&" and not truth and "moved" in st:
+            r = strip_casts(c.kids[1])
+            while r.k == "paren":
+                r = strip_casts(r.kids[0])
+            if r.k == "bin" and r.op == "," and strip_casts(r.kids[-1]).k == "int" and strip_casts(r.kids[-1]).v != 0:
+                return None
+        return st
+    IN, OUT, T = flow.forward_paths(fn, frozenset(), transfer, edge)
+    for x, S in flow.states_at(fn, IN, T):
+        if x in copies:
+            chk.instance(rule)
+            if any("moved" in ps for ps in S):
+                chk.violation(rule, "symcache.c", "janet_symbol_gen", "counter-moved", x.loc,
+                              "the counter can be advanced after the name was hashed and before `%s` copies it: the new symbol gets the "
+                              "bytes of the next name with the hash and cache slot of this one, so (= g (symbol (string g))) is false" % x.text()[:50])
+            else:
+                chk.ok(rule, "janet_symbol_gen: the name that was hashed is the name that is copied")
+    chk.floor(rule, 1, len(copies))
